@@ -201,14 +201,23 @@ def check_tx_state(ctx, T, obj, fake, wires, queued, addr, wit, final=False):
     return ok
 
 
-def run_tx_case(ctx, T, lens, stagger, script, rng=None, kind="enum"):
+def run_tx_case(ctx, T, lens, stagger, script, rng=None, kind="enum", objects=None):
+    """objects: None (immutable bytes, each queued once) or a list describing the message objects the caller queues:
+    ("bytes", i) / ("bytearray", i) for the i-th payload, ("again", j) for the very object queued as the j-th one (a
+    prebuilt message queued a second time); what counts as queued is each object's content when it is queued"""
     ub = UniqueBytes()
     msgs = [ub.take(n) for n in lens]
+    if objects:
+        built = []
+        for kind_, i in objects:
+            built.append(built[i] if kind_ == "again" else (bytearray(msgs[i]) if kind_ == "bytearray" else msgs[i]))
+        msgs = built
+        ctx.hit("tx_cases_with_mutable_or_repeated_message_objects_%s" % T.name)
     wires = Wires()
     obj, fake, addr = T.make(None if T.serial else wires)
     fake.script("send", script)
     nontrivial = any(i != FULL for i in script)
-    ctx.case((T.name, "tx", lens, stagger, names(script)), nontrivial=nontrivial)
+    ctx.case((T.name, "tx", lens, stagger, names(script), objects), nontrivial=nontrivial)
     queued = b""
     qi = 0
     log = []
@@ -222,7 +231,7 @@ def run_tx_case(ctx, T, lens, stagger, script, rng=None, kind="enum"):
     if not stagger:
         for m in msgs:
             T.queue(obj, m)
-            queued += m
+            queued += bytes(m)
         qi = len(msgs)
     cap = len(script) + len(msgs) + 3
     calls = 0
@@ -230,7 +239,7 @@ def run_tx_case(ctx, T, lens, stagger, script, rng=None, kind="enum"):
     while calls < cap:
         if stagger and qi < len(msgs):
             T.queue(obj, msgs[qi])
-            queued += msgs[qi]
+            queued += bytes(msgs[qi])
             qi += 1
         nsend = fake.calls.get("send", 0)
         mark = len(fake.log)
@@ -267,6 +276,7 @@ def run_tx_case(ctx, T, lens, stagger, script, rng=None, kind="enum"):
     check_tx_state(ctx, T, obj, fake, wires, queued, addr, wit, final=True)
 
 
+
 def run_rx_case(ctx, T, shape, rng=None):
     """shape: list of ('chunk', n) | would-block items"""
     ub = UniqueBytes()
@@ -291,6 +301,7 @@ def run_rx_case(ctx, T, shape, rng=None):
              nontrivial=nchunks > 0 and nblocks > 0)
     calls = 0
     log = []
+    drained = b""
     while fake.pending(op) and calls < len(shape) + 2:
         before = fake.calls.get(op, 0)
         if rng is not None and rng.random() < 0.3:
@@ -302,9 +313,22 @@ def run_rx_case(ctx, T, shape, rng=None):
         calls += 1
         ctx.event(fake.calls.get(op, 0) - before)
         dl = fake.delivered
+        if rng is not None and hasattr(obj, "catRxbs") and rng.random() < 0.3:
+            # the consumer takes what has arrived so far (`catRxbs`: "return copy and clear"): it gets exactly the bytes
+            # not taken before, and the buffer the caller reads -- its own, when it supplied one -- is empty afterwards
+            got = bytes(obj.catRxbs())
+            log.append("catRxbs")
+            ctx.hit("rx_drains_%s" % T.name)
+            if not ctx.check(drained + got == dl and not bytes(T.rxb(obj)), "%s/rx/drain-not-exactly-the-new-bytes" % T.name,
+                             "%s: catRxbs returned %d bytes, %d were new; receive buffer afterwards holds %d bytes" % (
+                                 T.name, len(got), len(dl) - len(drained), len(bytes(T.rxb(obj)))),
+                             lambda: {"class": T.name, "delivered": dl.hex(), "taken_before": drained.hex(), "returned": got.hex(),
+                                      "buffer_after": bytes(T.rxb(obj)).hex(), "steps": log}):
+                return
+            drained += got
         wit = lambda: {"class": T.name, "recv_results": [(i[1].hex() if i[0] == "data" else item_name(i)) for i in script],
-                       "delivered": dl.hex(), "rxbs": bytes(T.rxb(obj)).hex(), "steps": log}
-        if not ctx.check(bytes(T.rxb(obj)) == dl, "%s/rx/rxbs-differs-from-received-chunks" % T.name,
+                       "delivered": dl.hex(), "taken": drained.hex(), "rxbs": bytes(T.rxb(obj)).hex(), "steps": log}
+        if not ctx.check(drained + bytes(T.rxb(obj)) == dl, "%s/rx/rxbs-differs-from-received-chunks" % T.name,
                          "%s: rxbs is not the concatenation of the received chunks in arrival order" % T.name, wit):
             return
         if not T.serial:
@@ -350,7 +374,16 @@ def random_case(ctx, T, rng):
             script.append(rng.choice(T.blocks))
     if not T.serial and rng.random() < 0.25:
         script.insert(rng.randrange(len(script) + 1), ERR(rng.choice((104, 110, 113))))  # ECONNRESET/ETIMEDOUT/EHOSTUNREACH
-    run_tx_case(ctx, T, tuple(lens), rng.random() < 0.5, script, rng=rng, kind="random")
+    stagger = rng.random() < 0.5
+    run_tx_case(ctx, T, tuple(lens), stagger, script, rng=rng, kind="random")
+    # the same queue with message objects of the caller's own: bytearrays, and one object queued a second time
+    r2 = ctx.subrng("c24obj", T.name, tuple(lens), len(script))
+    objects = [(r2.choice(["bytes", "bytearray", "bytearray"]), i) for i in range(len(lens))]
+    for _ in range(r2.choice([1, 1, 2])):
+        j = r2.randrange(len(objects))
+        if objects[j][0] != "again" and sum(lens) + lens[objects[j][1]] <= 250:
+            objects.insert(r2.randint(j + 1, len(objects)), ("again", j))
+    run_tx_case(ctx, T, tuple(lens), stagger, [i for i in script if i[0] != "errno"], rng=r2, kind="random", objects=objects)
     shape = []
     left = 230
     for _ in range(rng.randint(4, 40)):
@@ -430,6 +463,9 @@ def run(ctx):
         ctx.floor("requeue_partial_%s" % name, ctx.pick(700, 30000))
         ctx.floor("rx_chunks_%s" % name, ctx.pick(200, 3000))
         ctx.floor("random_cases_%s" % name, ctx.pick(15, 500))
+        ctx.floor("tx_cases_with_mutable_or_repeated_message_objects_%s" % name, ctx.pick(15, 500))
+        if name != "Driver":
+            ctx.floor("rx_drains_%s" % name, ctx.pick(30, 800))
         if name != "Driver":
             ctx.floor("cutoff_then_service_%s" % name, ctx.pick(20, 100))
     ctx.floor("distinct_nontrivial", ctx.pick(10000, 500000))
